@@ -22,7 +22,7 @@ def main(args):
     from vlib.llvc import corpus
     inc = corpus.generate_headers(["basic.emb"], os.path.join(core.VERIF, "corpus"))
     try:
-        r = viewcheck.run("C03", args, ["UInt", "Int", "Bcd", "Flag", "Float", "Enum"], ["write"], keep=keep, functions=FUNCS,
+        r = viewcheck.run("C03", args, ["UInt", "Int", "Bcd", "Flag", "Float", "Enum"], ["write"], keep=keep, enum_subset_in_quick=True, functions=FUNCS,
                           more_jobs=cpp_views.bcdwide_jobs() + corpus.vwrite_jobs("corpus.specs", inc))
     finally:
         shutil.rmtree(inc, ignore_errors=True)
